@@ -50,6 +50,19 @@ theorem C08_all_abandoned (lay : Nat × Nat) (input : List T) :
     simp only [setLast, List.length_nil] at h
     exact ih _ _ _ h
 
+/-- the everyday case, stated outright: a converter that converts every element with a function `f`
+    and hands the previous output back untouched turns the vector into `input.map f` — same length,
+    same order, in the same allocation, nothing leaked — for every input of every length -/
+theorem C08_map (lay : Nat × Nat) (f : T → U) (conv : Nat → T → Option U → COut U E P)
+    (hc : ∀ k t p, conv k t p = .converted (f t) p) (input : List T) :
+    ∃ calls, tryConvert lay lay conv input = .done ((input.map f).map .out) [] calls := by
+  obtain ⟨calls, hs⟩ := spec_map f conv hc input [] []
+  exact ⟨calls, by rw [tryConvert_refines, hs]; rfl⟩
+
+example : tryConvert (E := Unit) (P := Unit) (8, 8) (8, 8)
+    (fun _ (t : Nat) (p : Option Nat) => .converted (t * 10) p) [1, 2, 3]
+    = .done [.out 10, .out 20, .out 30] [] [(1, none), (2, some 10), (3, some 20)] := by decide +kernel
+
 /-- non-vacuity: a concrete converter that converts, touches the previous output and abandons -/
 example : tryConvert (E := Unit) (P := Unit) (8, 8) (8, 8)
     (fun k (t : Nat) (p : Option Nat) =>
